@@ -120,12 +120,17 @@ pub fn part(t: &mut Toks) -> String {
                     .unwrap()
                     .map(|x| x.unwrap())
                     .collect();
+                let mut full = false;
                 let (mem, known) = {
                     let b = { bookie.read::<&str, _>("verif", None).await.get(&actor).cloned() };
                     match b {
                         None => ("-".to_string(), false),
                         Some(b) => {
                             let r = b.read::<&str, _>("verif", None).await;
+                            if let Some(p) = r.get_partial(&CrsqlDbVersion(*v)) {
+                                let rs: Vec<_> = p.seqs.iter().collect();
+                                full = rs.len() == 1 && rs[0].start().0 == 0 && rs[0].end().0 == p.last_seq.0;
+                            }
                             let m = r
                                 .get_partial(&CrsqlDbVersion(*v))
                                 .map(|p| {
@@ -140,6 +145,17 @@ pub fn part(t: &mut Toks) -> String {
                         }
                     }
                 };
+                // the notification for a version that just became complete in the buffer is sent by
+                // a spawned task: wait for it instead of guessing how long that takes
+                if full && trig.get(v).copied().unwrap_or(0) == 0 {
+                    let t0 = Instant::now();
+                    while trig.get(v).copied().unwrap_or(0) == 0 && t0.elapsed() < Duration::from_secs(10) {
+                        tokio::time::sleep(Duration::from_millis(2)).await;
+                        while let Ok((_a, tv)) = rx_apply.try_recv() {
+                            *trig.entry(tv.0).or_default() += 1;
+                        }
+                    }
+                }
                 parts.push(format!(
                     "v{} db={} buf={} rows={} mem={} known={} trig={}",
                     v,
